@@ -433,6 +433,7 @@ MultiResetClauses(T, prev, ev, post) ==
   \cup If(~(Len(I) \in g.jobs[1]..g.jobs[2]) \/ NM(I) > g.machines[2]
           \/ \E j \in Jobs(I) : ~(Len(I[j]) \in g.machines[1]..g.machines[2]), {C("C18:instance-outside-generator-ranges")})
   \cup EnvObsClauses(T, ev.eobs, post)
+EnvCtorFailedClauses(T, prev, ev, post) == {Tag("C18:environment-constructor-raised", <<ev.out, ev.builder>>)}
 MultiResetFailedClauses(T, prev, ev, post) == {Tag("C18:multi-reset-raised", <<ev.out, ev.flexible_generator>>)}
 
 (* --- C14: views, round trips, rebuilding from job sequences -------------------- *)
@@ -633,6 +634,7 @@ DClauses0(T, l, prev, post) ==
            [] ev.a = "EnvFreshRun" -> EnvFreshRunClauses(T, prev, ev, post)
            [] ev.a = "MultiReset"  -> MultiResetClauses(T, prev, ev, post)
            [] ev.a = "MultiResetFailed" -> MultiResetFailedClauses(T, prev, ev, post)
+           [] ev.a = "EnvCtorFailed" -> EnvCtorFailedClauses(T, prev, ev, post)
            [] ev.a = "Transform"   -> TransformClauses(T, prev, ev, post)
            [] ev.a = "Views"       -> ViewsClauses(T, prev, ev, post)
            [] ev.a = "RoundTrip"   -> RoundTripClauses(T, prev, ev, post)
